@@ -266,7 +266,9 @@ ReadByPath(rot, files, path, used) ==
 
 Build21(ks, used, isk, iskKey, udLen, cons) ==
   /\ ShapeOK("cert_block_21", ks) /\ used \in 1..N(ks)
-  /\ (isk => iskKey.cls = ks[1].cls) /\ (~isk => iskKey = NoKey /\ udLen = 0 /\ cons = 0)
+  \* the ISK is on ITS OWN curve: every (root curve, ISK curve) pair is a block (the header word, the curve byte and the key field follow
+  \* the ISK key, the signature field the root key that signs)
+  /\ (isk => iskKey.cls \in {"p256", "p384"}) /\ (~isk => iskKey = NoKey /\ udLen = 0 /\ cons = 0)
   /\ obj' = [NoObj EXCEPT !.kind = "cb21", !.keys = ks, !.used = used, !.isk = isk, !.iskKey = iskKey,
                           !.ud = [v |-> 0, len |-> udLen], !.cons = cons, !.signer = TRUE]
   /\ out' = NoObj
